@@ -153,6 +153,7 @@ impl Store {
         indexes.sync()?;
         indexes.close()?; // drops them.
         drop(events);
+        vpoint!("rebuild.closed");
 
         let mut events_path = dir.clone();
         events_path.push("event.map");
@@ -181,10 +182,13 @@ impl Store {
         // Remove any previous backup, so that the renames below cannot fail half-way
         let _ = fs::remove_file(&events_bak_path);
         let _ = fs::remove_dir_all(&indexes_bak_path);
+        vpoint!("rebuild.bakremoved");
 
         // Backup existing data (moving out of the way)
         fs::rename(&events_path, &events_bak_path)?;
+        vpoint!("rebuild.mapmoved");
         fs::rename(&indexes_path, &indexes_bak_path)?;
+        vpoint!("rebuild.lmdbmoved");
 
         // Create space for new data
         let _ = fs::create_dir(&indexes_path);
@@ -197,6 +201,7 @@ impl Store {
         let new_events = EventStore::new(&events_path)?;
         let new_indexes = Lmdb::new(&indexes_path, &extra_table_names)?;
         new_indexes.sync()?; // force it to sync
+        vpoint!("rebuild.newopened");
 
         let old_store = Store {
             indexes: old_indexes,
@@ -224,8 +229,11 @@ impl Store {
             let event = old_store.events.get_event_by_offset(old_offset as usize)?;
             let new_offset = new_store.events.store_event(event)? as u64;
             new_store.indexes.index(&mut new_txn, event, new_offset)?;
+            vpoint!("rebuild.copiedone");
         }
+        vpoint!("rebuild.precommit");
         new_txn.commit()?;
+        vpoint!("rebuild.copied");
 
         // Copy deleted IDs
         let mut new_txn = new_store.indexes.write_txn()?;
@@ -234,6 +242,7 @@ impl Store {
             new_store.indexes.mark_deleted(&mut new_txn, id)?;
         }
         new_txn.commit()?;
+        vpoint!("rebuild.deleted");
 
         // Copy deleted naddrs
         let mut new_txn = new_store.indexes.write_txn()?;
@@ -244,6 +253,7 @@ impl Store {
                 .mark_naddr_deleted(&mut new_txn, &addr, when)?;
         }
         new_txn.commit()?;
+        vpoint!("rebuild.naddr");
 
         // Copy extra tables
         let mut new_txn = new_store.indexes.write_txn()?;
@@ -257,7 +267,9 @@ impl Store {
         }
         new_txn.commit()?;
 
+        vpoint!("rebuild.extra");
         new_store.sync()?;
+        vpoint!("rebuild.synced");
 
         // Close the old environment. An environment stays open (and is handed out again
         // for the same path) until it is explicitly closed, so a later rebuild would
